@@ -602,6 +602,16 @@ def prepare_dump(data: IOData, allow_changes: bool, filename: str) -> IOData:
                 "followed by fully virtual ones.",
                 filename,
             )
+    if "post_scf_ao" in data.one_rdms or "post_scf_spin_ao" in data.one_rdms:
+        # The label of a post-SCF density names the method: without it the matrix would be
+        # written under a label that no FCHK reader (including this module) recognises.
+        level = data.lot.upper() if data.lot is not None else "NA"
+        if not any(item in level for item in ["MP2", "MP3", "CC", "CI"]):
+            raise PrepareDumpError(
+                "Cannot write a post-SCF density matrix to FCHK when the level of theory (lot) "
+                "does not contain MP2, MP3, CC or CI.",
+                filename,
+            )
     return prepare_segmented(data, True, allow_changes, filename, "FCHK")
 
 
